@@ -448,6 +448,20 @@ int main(int argc, char** argv)
     add_jobs<u32>(m);
     add_jobs<i64>(m);
     add_jobs<u64>(m);
+    // long long is a distinct type from int64_t (= long) here: the abs(long long) overload and the
+    // templates instantiated for it
+    m.job("longlong", {"quick", "thorough"}, [](mc::Reporter& r) {
+        Ctx c(r);
+        unary_math<long long>(c);
+        unary_math<unsigned long long>(c);
+        auto const sp = pair_space<long long, long long>(false);
+        add_sats<long long>(c, sp);
+        div_sats<long long>(c, sp);
+        midpoints<long long>(c, sp);
+        midpoints<unsigned long long>(c, pair_space<unsigned long long, unsigned long long>(false));
+        gcd_lcm<long long, long>(c, pair_space<long long, long>(false));
+        gcd_lcm<unsigned long, long long>(c, pair_space<unsigned long, long long>(false));
+    });
     m.job("midpoint-pointers", {"quick", "thorough"}, [](mc::Reporter& r) {
         Ctx c(r);
         struct Wide {
